@@ -102,7 +102,7 @@ func (r *c14run) batch(c AtomCase) {
 		r.fail("batch:create-ok:read-error", "%s: Create returned nil but Read fails: %v", where, rerr)
 		return
 	}
-	if diffs := store.DiffPlans(store.Build(spec), got, store.CmpOpt{}); len(diffs) > 0 {
+	if diffs := store.DiffPlans(store.Build(spec), got, cmpOptFor(r.arm)); len(diffs) > 0 {
 		r.fail("batch:create-ok:"+diffs[0].Field, "%s: Create returned nil but the stored plan differs:%s", where, diffText(diffs))
 	}
 }
